@@ -215,6 +215,26 @@ def dim_cases():
     return out
 
 
+def declassign_cases():
+    """A local declared and initialised on one line (DECL_ASSIGN_LINE), the initialiser / declarator taken from every
+    shape of expression: (label, line, code, whole file text).  A static or const local may be initialised."""
+    h = norm.render(norm.preamble(".c", "test.c"))
+    inits = [("int", "n", "n + 1"), ("size_t", "len", "ft_strlen((const char *)src)"), ("size_t", "len", "sizeof(const t_list)"),
+             ("char", "*str", "(char *)src"), ("int", "val", "ft_f(n, (n), sizeof(n))"), ("long", "big", "(long)n * 2"),
+             ("char", "chr", "'c'"), ("char", "*msg", "\"static const\""), ("int", "res", "n > 0"), ("t_list", "*cur", "lst->next"),
+             ("int", "tab[2]", "{1, 2}"), ("unsigned int", "mask", "~0u"), ("int", "neg", "-n"), ("char", "**ptr", "0")]
+    out = []
+    for t, nm, init in inits:
+        col = norm.min_col(t, 1)
+        decl = "\t" + t + norm.tabs_to(5 + len(t), col) + nm + " = " + init + ";\n"
+        text = h + "int\tft_test(int n, const void *src, t_list *lst)\n{\n" + decl + "\n\treturn (n);\n}\n"
+        out.append((f"declassign:{t}:{init[:24]}", 15, "DECL_ASSIGN_LINE", text))
+    # a function-pointer local whose parameter list holds `const`
+    out.append(("declassign:fptr:const-param", 15, "DECL_ASSIGN_LINE",
+                h + "int\tft_test(int n, const void *src, t_list *lst)\n{\n\tvoid\t(*put)(const char *) = ft_putstr;\n\n\treturn (n);\n}\n"))
+    return out
+
+
 def _wrapped_task(task):
     label, ln, code, text = task
     r = impl.run_text("test.h" if "#ifndef TEST_H" in text else "test.c", text)
@@ -294,13 +314,14 @@ def run(tier, seed):
         if prob:
             failures.append(Failure("C02", f"V25:{code}:{prob}:{label}", f"a ternary in context {label.split('@')[1]}: {prob}",
                                     {"kind": "wrapped", "text": text, "code": code, "line": ln}))
-    dtasks = dim_cases()
+    dtasks = dim_cases() + declassign_cases()
     dres = explore.pmap(_wrapped_task, dtasks, chunksize=4)
     st.runs += len(dtasks)
     st.bump("array_dimension_runs", len(dtasks))
     for (label, ln, code, text), prob in zip(dtasks, dres):
         if prob:
-            failures.append(Failure("C02", f"V34/35:{code}:{prob}:{label.rsplit(':', 1)[0]}", f"operator spacing in an array dimension ({label}): {prob}",
+            what = "operator spacing in an array dimension" if label.startswith("dim:") else "declaration with initialiser"
+            failures.append(Failure("C02", f"{'V34/35' if label.startswith('dim:') else 'V-decl-assign'}:{code}:{prob}:{label.rsplit(':', 1)[0]}", f"{what} ({label}): {prob}",
                                     {"kind": "wrapped", "text": text, "code": code, "line": ln}))
     # V28 generalised: every parameter shape (scalar, pointer, array, const, function pointer) at every position of a
     # prototype loses its name
